@@ -1,5 +1,6 @@
 import PydlVerif.Model.JsonUtil
 import PydlVerif.Model.Trace
+import PydlVerif.Model.TraceIter
 open Lean
 namespace PydlVerif.Driver.C13
 open PydlVerif PydlVerif.Trace
@@ -9,9 +10,12 @@ value of a bit pattern, out as [num, den] -/
 structure Codec (α : Type) where
   dec : Json → Except String α
   enc : α → Json
+  /-- `np.sqrt` for the rejection step of the loop (`djs_reject`); never evaluated in the form `TraceSet.__init__` calls it
+  (no `lower`/`upper`), so the Rat instance is a placeholder -/
+  sqrt : α → α
 
-def floatC : Codec Float := ⟨J.float, J.ofFloat⟩
-def ratC : Codec Rat := ⟨fun j => do pure (ratOfBits (← J.bits j)), J.ofRat⟩
+def floatC : Codec Float := ⟨J.float, J.ofFloat, Float.sqrt⟩
+def ratC : Codec Rat := ⟨fun j => do pure (ratOfBits (← J.bits j)), J.ofRat, id⟩
 
 variable {α : Type} [Scalar α]
 
@@ -37,6 +41,30 @@ def tsetOf (c : Codec α) (j : Json) : Except String (TSet α) := do
          coeff := ← arr2 c (← J.fld j "coeff"), ncoeff := ← J.fNat j "ncoeff",
          xjumplo := ← J.fOpt c.dec j "xjumplo", xjumphi := ← J.fOpt c.dec j "xjumphi",
          xjumpval := ← J.fOpt c.dec j "xjumpval" }
+
+def tsInOf (c : Codec α) (j : Json) : Except String (TsIn α) := do
+  pure {
+      xpos := ← arr2 c (← J.fld j "xpos"), ypos := ← arr2 c (← J.fld j "ypos"),
+      invvar := ← J.fOpt (arr2 c) j "invvar", inmask := ← J.fOpt bools2 j "inmask",
+      func := ← J.fStr j "func", ncoeff := ← J.fNat j "ncoeff",
+      xmin := ← J.fOpt c.dec j "xmin", xmax := ← J.fOpt c.dec j "xmax", maxiter := ← J.fInt j "maxiter",
+      xjumplo := ← J.fOpt c.dec j "xjumplo", xjumphi := ← J.fOpt c.dec j "xjumphi",
+      xjumpval := ← J.fOpt c.dec j "xjumpval" }
+
+def tsOutJ (c : Codec α) (o : TsOut α) : Json :=
+  Json.mkObj [("coeff", enc2 c o.tset.coeff), ("yfit", enc2 c o.yfit), ("outmask", encB2 o.outmask),
+              ("xmin", c.enc o.tset.xmin), ("xmax", c.enc o.tset.xmax)]
+
+/-- one column of a FITS record: `[name, "s", string]`, `[name, "n", number]`, `[name, "m", nrow, ncol, rows]` -/
+def cellOf (c : Codec α) (j : Json) : Except String (String × Cell α) := do
+  let a ← j.getArr?
+  let name ← (a.getD 0 Json.null).getStr?
+  let kind ← (a.getD 1 Json.null).getStr?
+  match kind with
+  | "s" => pure (name, .str (← (a.getD 2 Json.null).getStr?))
+  | "n" => pure (name, .num (← c.dec (a.getD 2 Json.null)))
+  | "m" => pure (name, .mat (← (a.getD 2 Json.null).getNat?) (← (a.getD 3 Json.null).getNat?) (← arr2 c (a.getD 4 Json.null)))
+  | _ => throw s!"cell: unknown kind {kind}"
 
 def handleWith (c : Codec α) (op : String) (j : Json) : Except String Json := do
   match op with
@@ -78,6 +106,39 @@ def handleWith (c : Codec α) (op : String) (j : Json) : Except String Json := d
                                    (o.tset.xy (some inp.xpos) false))]
         | _ => []
       Json.mkObj (base ++ extra)) r)
+  | "tsfitrej" =>
+    -- the loop with C17's model of djs_reject inside, and its agreement with `tsetFit` (theorem `tsetFitRej_eq`) on this input;
+    -- `reorder`: the traces re-ordered first (row i of the input := row reorder[i])
+    let inp0 ← tsInOf c j
+    let perm ← J.fOpt (J.array J.nat) j "reorder"
+    let inp := match perm with
+      | some p => inp0.reorder (fun i => p.getD i 0)
+      | none => inp0
+    let r := tsetFitRej c.sqrt gaussSolve inp
+    let r0 := tsetFit gaussSolve inp
+    let same := toString (resJ (tsOutJ c) r) == toString (resJ (tsOutJ c) r0)
+    pure (Json.mkObj [("rej", resJ (tsOutJ c) r), ("same_as_tsfit", Json.bool same)])
+  | "hduxy" =>
+    let cols ← J.array (cellOf c) (← J.fld j "cols")
+    let xpos ← J.fOpt (arr2 c) j "xpos"
+    let ign ← J.fBool j "ignore_jump"
+    let r : Trace.R (TSet α × (Array (Array α) × Array (Array α))) := do
+      let t ← TSet.ofRec ⟨cols.toList⟩
+      let p ← t.xy xpos ign
+      pure (t, p)
+    pure (resJ (fun (q : TSet α × (Array (Array α) × Array (Array α))) =>
+      Json.mkObj [("x", enc2 c q.2.1), ("y", enc2 c q.2.2), ("ntrace", Json.num q.1.coeff.size), ("ncoeff", Json.num q.1.ncoeff),
+                  ("func", Json.str q.1.func), ("has_jump", Json.bool q.1.xjumplo.isSome)]) r)
+  | "recxy" =>
+    -- store the trace set as a record (`toRec`), read it back (`ofRec`), evaluate (theorem `ofRec_toRec`)
+    let t ← tsetOf c j
+    let xpos ← J.fOpt (arr2 c) j "xpos"
+    let ign ← J.fBool j "ignore_jump"
+    let r : Trace.R (Array (Array α) × Array (Array α)) := do
+      let t' ← TSet.ofRec t.toRec
+      t'.xy xpos ign
+    pure (resJ (fun (p : Array (Array α) × Array (Array α)) =>
+      Json.mkObj [("x", enc2 c p.1), ("y", enc2 c p.2)]) r)
   | "xy" =>
     let t ← tsetOf c j
     let xpos ← J.fOpt (arr2 c) j "xpos"
